@@ -5,7 +5,7 @@ markers, 236000/237000/237255/235000 chains, 204 associated fields), all bit pat
 as data, compressed and not, 1..4 subsets.  Oracle: the reference's back-reference model for
 bitmap_links_all_subsets, and the expected hierarchical view (refbufr.nested) for the
 nested JSON rendering."""
-from vlib import runner, sut, std
+from vlib import runner, sut, std, fuzz
 from vlib.compare import first_value_diff
 from vlib.runner import Outcome, Report
 from gen import messages as gmsg, templates as gtemplates
@@ -105,6 +105,13 @@ def gen(tier):
     return g
 
 
+# ---- coverage-guided stage: the same generator and oracle, decisions taken from fuzzer bytes (vlib.fuzz) ----
+_fuzz_gen = gen('quick')
+
+
+fuzz_case = fuzz.structured_target(_fuzz_gen, check_case)
+
+
 def run(tier, seed):
     rep = Report(PID, tier, seed, 'exploration')
     rep.rule = ('C01 generator restricted to cases with a bitmap construct or an associated field (others are discarded '
@@ -120,6 +127,7 @@ def run(tier, seed):
     n = 4000 if tier == 'quick' else 100000
     runner.run_generated(rep, gen(tier), check_case, n, runner.tier_workers(tier),
                          shrink_s=20 if tier == 'quick' else 120)
+    fuzz.run_structured(rep, 'checks.c07', _fuzz_gen, tier)
     return rep.finish()
 
 
